@@ -38,6 +38,10 @@ def clsEstimate := "C15.decimal_width_estimate"
 def clsUdlRound := "C15.udl_round_integer_with_fraction"
 def clsStaticPow2 := "C15.static_negative_power_of_two"
 def clsOctSep := "C15.octal_separator_after_prefix"
+def clsSignedPoint := "C15.signed_trailing_radix_point"
+
+/-- the class of `clsSignedPoint`: a signed token that ends in the radix point (`-5.`) -/
+def signedPoint (t : Token.Token) : Bool := t.signed && t.body.hasPoint && t.body.frac == 0
 
 /-- the class of `clsOctSep`: an octal token whose leading `0` is directly followed by a separator -/
 def octSep (cs : List Char) : Bool :=
@@ -114,7 +118,7 @@ def checkC15 (toks : List String) (res : String) : Option Verdict :=
       let short : Bool := match nums with
         | [_, _, _, _, bits, _, _] => t.body.base == 10 && decide (sig ≥ 2 ^ bits)
         | _ => false
-      some { model, spec := some ok, cls := if octSep cs then clsOctSep else if short then clsEstimate else "",
+      some { model, spec := some ok, cls := if octSep cs then clsOctSep else if signedPoint t then clsSignedPoint else if short then clsEstimate else "",
              branch := s!"scan/base{t.body.base}" ++ (if t.body.hasPoint then "/frac" else "") }
   | ["parse", ty, tok] => do
     let (S, tyName) ← parseStorage ty
@@ -125,7 +129,7 @@ def checkC15 (toks : List String) (res : String) : Option Verdict :=
     | none => some { model, branch := "parse/malformed", nontrivial := false }
     | some t =>
       if t.isInteger && S.holds t.significand then
-        some { model, spec := some (res == s!"{tyName}:{t.significand}"), cls := if octSep cs then clsOctSep else "",
+        some { model, spec := some (res == s!"{tyName}:{t.significand}"), cls := if octSep cs then clsOctSep else if signedPoint t then clsSignedPoint else "",
                branch := s!"parse/base{t.body.base}/chunks{t.body.digits.length / (if t.body.base == 10 then 18 else if t.body.base == 16 then 15 else if t.body.base == 8 then 21 else 63)}" }
       else
         some { model, branch := if t.isInteger then "parse/does-not-fit" else "parse/fraction", nontrivial := false }
